@@ -86,11 +86,13 @@ type method struct {
 }
 
 var (
-	vStr20000   = strings.Repeat("s", 20000)
-	vStr60000   = strings.Repeat("S", 60000)
-	vBytes65000 = []byte(strings.Repeat("b", 65000))
-	vF64sNaN    = []float64{math.NaN(), 1, math.Inf(1), math.Inf(-1)}
-	vF32sNaN    = []float32{float32(math.NaN()), float32(math.Inf(1))}
+	vStr20000      = strings.Repeat("s", 20000)
+	vStr60000      = strings.Repeat("S", 60000)
+	vBytes65000    = []byte(strings.Repeat("b", 65000))
+	vEsc12000      = "q\"" + strings.Repeat("e", 12000)
+	vEscBytes12000 = []byte("\n" + strings.Repeat("E", 12000))
+	vF64sNaN       = []float64{math.NaN(), 1, math.Inf(1), math.Inf(-1)}
+	vF32sNaN       = []float32{float32(math.NaN()), float32(math.Inf(1))}
 )
 
 func methods() []method {
@@ -181,6 +183,11 @@ func methods() []method {
 		{"Str/big20000", func(e *zerolog.Event) *zerolog.Event { return e.Str("k", vStr20000) }, nil},
 		{"Str/big60000", func(e *zerolog.Event) *zerolog.Event { return e.Str("k", vStr60000) }, nil},
 		{"Bytes/big65000", func(e *zerolog.Event) *zerolog.Event { return e.Bytes("k", vBytes65000) }, nil},
+		// an early byte that needs escaping followed by 12000 plain ones (encoded size far below the pooling threshold): an
+		// encoder that reserves the worst case for the remainder outgrows the threshold and is never pooled again
+		{"Str/bigesc12000", func(e *zerolog.Event) *zerolog.Event { return e.Str("k", vEsc12000) }, nil},
+		{"Bytes/bigesc12000", func(e *zerolog.Event) *zerolog.Event { return e.Bytes("k", vEscBytes12000) }, nil},
+		{"Str/bigesckey12000", func(e *zerolog.Event) *zerolog.Event { return e.Str(vEsc12000, "v") }, nil},
 		// non-finite floats (rendered as strings), negative zero, integers at their extremes
 		{"Float64/nan", func(e *zerolog.Event) *zerolog.Event { return e.Float64("k", math.NaN()).Float64("i", math.Inf(-1)) }, func(a *zerolog.Array) *zerolog.Array { return a.Float64(math.NaN()).Float64(math.Inf(1)) }},
 		{"Float32/nan", func(e *zerolog.Event) *zerolog.Event {
